@@ -354,7 +354,9 @@ class Ref:
                 elif self.inherits_from(wanted, obj):
                     self.silent.append("base would close an inheritance cycle")
                 else:
-                    if obj.base is not wanted:
+                    if obj.base is not wanted and not (obj.base is not None and obj.base.name.lower() == wanted.name.lower()):
+                        # a base of another NAME: the text does not say which one counts.  The same name that now resolves to another
+                        # class is decided by the text: `class X : B` - inheritsFrom returns the class B stands for here
                         self.silent.append("re-opened with a different base")
                     obj.base = wanted
             for x in n[3]:
